@@ -208,7 +208,10 @@ CLAIMED['C18'] = dict(
          'cycles), an alias to a node that contains itself is rejected with a RecognitionError citing '
          'that node, expanding an alias-free document is the identity, and loading a document equals '
          'loading the document in which every alias is written out as a copy of the anchored node '
-         '(same value, same constructor calls, same failure). On the real code each generated document '
+         '(same value, same constructor calls, same failure); a syntactic predicate selfRef (some alias '
+         'names an anchor of an enclosing collection) characterises the cycle error: raised only for '
+         'self-referential documents, and a self-referential document of any cycle length never loads '
+         'and runs no constructor (Props/C18Cycle). On the real code each generated document '
          'is loaded with an alias and with the copy written out (nodes of seasoned classes, positions '
          'of different declared types, keys) and the outcomes must coincide; cycles must raise. '
          + LOADER_TIE + 'The driver receives the node graph with its sharing.',
